@@ -12,6 +12,8 @@ import math
 import z3
 
 R, Z, B = 'R', 'Z', 'B'
+FOLD = False     # fold applications of primitives to constants into (rounded) constants
+SNAP = 0         # >0: floats within 1e-13 of a fraction with denominator <= SNAP are read as that fraction
 
 _TABLE = {}
 _NEXT = [0]
@@ -103,6 +105,11 @@ def _unify(a, b):
 
 
 def _c(v, sort):
+    if FOLD and SNAP and sort == R and v.denominator > SNAP:
+        # arithmetic on rounded constants (folded applications): re-read within the same tolerance
+        fr = v.limit_denominator(SNAP)
+        if abs(fr - v) <= Fraction(1, 10 ** 13) * max(1, abs(fr)):
+            v = fr
     return _mk('const', (), sort, v)
 
 
@@ -210,7 +217,23 @@ def ite(c, a, b):
     return _mk('ite', (c, a, b), s)
 
 
+def snap_float(x):
+    ex = Fraction(*float(x).as_integer_ratio())
+    if SNAP:
+        fr = ex.limit_denominator(SNAP)
+        if fr != ex and abs(fr - ex) <= Fraction(1, 10 ** 13) * max(1, abs(fr)):
+            return fr
+    return ex
+
+
 def app(fname, args, sort=R):
+    if FOLD and fname in _PYFUN and all(a.op == 'const' for a in args):
+        try:
+            v = _PYFUN[fname](*[float(a.val) for a in args])
+            if v == v and abs(v) != float('inf'):
+                return const(snap_float(v)) if sort == R else iconst(int(v))
+        except (ValueError, OverflowError):
+            pass
     return _mk('app', tuple(args), sort, fname)
 
 
